@@ -308,6 +308,9 @@ fn parse_cron_part(
         if part == "*" {
             values.extend(min..=max);
         } else if let Some(step) = part.strip_prefix("*/") {
+            if !step.chars().all(|c| c.is_ascii_digit()) {
+                return Err(format!("Can't parse step value to u8: {}", step));
+            }
             let step: u8 = step
                 .parse()
                 .map_err(|_| format!("Can't parse step value to u8: {}", step))?;
@@ -321,12 +324,27 @@ fn parse_cron_part(
             if start.is_empty() {
                 return Err("Can't find start number of range".to_string());
             }
-            let start = parse_value(start, cron_type)?;
             let end = range_parts.next().unwrap_or_default();
             if end.is_empty() {
                 return Err("Can't find end number of range".to_string());
             }
-            let end = parse_value(end, cron_type)?;
+            if range_parts.next().is_some() {
+                return Err("A range must consist of exactly two values".to_string());
+            }
+
+            // In a day of week range, 7 keeps its position after Saturday (`5-7` is Fri-Sun)
+            let is_sunday_as_7 =
+                |value: &str| cron_type == &CronPartType::DayOfWeek && value == "7";
+            let start = if is_sunday_as_7(start) {
+                7
+            } else {
+                parse_value(start, cron_type)?
+            };
+            let (end, max) = if is_sunday_as_7(end) {
+                (7, 7)
+            } else {
+                (parse_value(end, cron_type)?, max)
+            };
 
             if start > end {
                 return Err(
@@ -341,7 +359,11 @@ fn parse_cron_part(
                 ));
             }
 
-            values.extend(start..=end);
+            if cron_type == &CronPartType::DayOfWeek {
+                values.extend((start..=end).map(|value| value % 7));
+            } else {
+                values.extend(start..=end);
+            }
         } else {
             let value = parse_value(part, cron_type)?;
 
